@@ -67,6 +67,8 @@ def cases(tier, seed):
                 yield ("seq", "low_rom", "full", d, pre)
     for pre in itertools.product(range(len(CORE)), repeat=2):
         yield ("seq", "low_rom", "core", core_d, pre)
+    for cfg in LAST:
+        yield ("range-end", cfg)
     for cfg in ("high_rom", "mapA", "mapB"):
         for d in range(1, 5):
             if d <= 2:
@@ -74,6 +76,40 @@ def cases(tier, seed):
             else:
                 for pre in itertools.product(range(len(CORE_CFG)), repeat=2):
                     yield ("seq", cfg, "cfg", d, pre)
+
+
+# ---- the last bytes of the mapped range ----------------------------------------------------------------------------
+LAST = {"low_rom": 0x6FFFFF, "high_rom": 0xFFFFFF}   # last byte of the last mapped ROM bank (LoROM primary range, HiROM mirror range)
+
+
+def run_range_end(cfg):
+    """Programs whose last statement fills the mapped range up to its very last byte (nothing follows)."""
+    ref = refbus_for(cfg)
+    last = LAST[cfg]
+    viol = []
+    outcomes = set()
+    n = 0
+    for stmt, size, data in ((".db 0x5a", 1, b"\x5a"), (".dw 0x1234", 2, b"\x34\x12"), (".dl 0x123456", 3, b"\x56\x34\x12"), ("rts", 1, b"\x60"),
+                             ("lda.w #0x1234", 3, b"\xa9\x34\x12")):
+        start = last - size + 1
+        src = f"*=0x{start:06x}\n{stmt}\n"
+        out = impl.assemble(src, rom=cfg)
+        n += 1
+        if out.accepted and out.blocks == [(ref.phys(start), data)]:
+            outcomes.add("range-end-ok")
+        elif out.accepted:
+            viol.append({"key": f"layout:wrong-bytes:{cfg}", "msg": f"expected {data.hex()} at {ref.phys(start):#x}, got {out.brief()} :: {src!r}"})
+        else:
+            viol.append({"key": f"layout:valid-program-rejected:fills-the-last-mapped-byte:{cfg}",
+                         "msg": f"`{stmt}` ending exactly on the last mapped byte {last:#x} is rejected: {out.brief()} :: {src!r}"})
+            outcomes.add("RANGE-END-REJECTED")
+        # one byte earlier everything is fine (control)
+        src2 = f"*=0x{start - 1:06x}\n{stmt}\n"
+        out2 = impl.assemble(src2, rom=cfg)
+        n += 1
+        if not out2.accepted or out2.blocks != [(ref.phys(start - 1), data)]:
+            viol.append({"key": f"layout:wrong-bytes:{cfg}", "msg": f"control one byte before the end: {out2.brief()} :: {src2!r}"})
+    return {"evals": n, "nt_count": n, "state_count": n, "transitions": n, "outcome": sorted(outcomes) or ["none"], "violations": viol, "depth": 1}
 
 
 def describe(case, res):
@@ -154,6 +190,8 @@ def refbus_for(cfg):
 
 
 def run_case(case):
+    if case[0] == "range-end":
+        return run_range_end(case[1])
     _, cfg, alpha, depth, pre = case
     alphabet = {"full": EVENTS, "core": CORE, "cfg": CORE_CFG}[alpha]
     viol = []
